@@ -274,3 +274,26 @@ func Shrink(e Engine, c *Case, v *work.Violation, dir string, budget int) (*Case
 	}
 	return best, bestV, used
 }
+
+// altEngine alternates between two engines by run parity (a property decided
+// by two arms); a case remembers which arm produced it.
+type altEngine struct{ a, b Engine }
+
+func (e altEngine) Name() string { return e.a.Name() + "+" + e.b.Name() }
+
+func (e altEngine) Gen(prop, tier string, ts *sim.Tapes) *Case {
+	if ts.Run%2 == 0 {
+		return e.a.Gen(prop, tier, ts)
+	}
+	return e.b.Gen(prop, tier, ts)
+}
+
+func (e altEngine) pick(c *Case) Engine {
+	if c.Engine == e.b.Name() {
+		return e.b
+	}
+	return e.a
+}
+
+func (e altEngine) Run(c *Case, dir string) *Outcome { return e.pick(c).Run(c, dir) }
+func (e altEngine) Shrinks(c *Case) []*Case          { return e.pick(c).Shrinks(c) }
